@@ -1,6 +1,6 @@
 (* C15: jitrestrict indexes its arrays within bounds and reads only assigned variables,
    for every time_array and every pair starts/ends of equal length (empty arrays included). *)
-From Coq Require Import ZArith QArith String List Bool Lia ZifyBool.
+From Coq Require Import ZArith QArith String List Bool Lia.
 From Verif Require Import Jit.Lang Jit.Interp Jit.Safety Jit.Tactics Gen.Kernels.
 Import ListNotations.
 Open Scope Z_scope.
